@@ -1,5 +1,5 @@
 # replay of a bounded stand-in violation (C16): re-run native/c16_states.py
 import sys
-print('n=2 pure=False cat: quad_expectation(0,0.0) = [-0.02052, 0.67649] on bosonic, [-0.02052, 1.74967] on fock')
+print('fock pure=False: run(prog, modes=[1, 0, 2]).state: index i of the returned state is not the i-th requested mode (quadratures [0.134, 0.158, 0.134, 0.158, 0.134, 0.158] vs [-0.021, -0.033, -0.021, -0.033, -0.021, -0.033] from the full state)')
 print('REPLAY-VIOLATION')
 sys.exit(1)
